@@ -568,12 +568,24 @@ theorem C08_sent_version_only_moves_in_steps {c : State} (h : Inv c) (ev : Ev) (
 /-
 Full statement of "no further notification is ever sent": once a registration has ended, no
 datagram carrying a notification of it is transmitted any more.  This is FALSE of the code (and of
-the model, which follows the code) in one situation, recorded as a known finding: a CON
-notification that was already handed to the message layer and is waiting in the backlog behind an
-unacknowledged CON to the same endpoint is still transmitted — and retransmitted — when that
-exchange finishes, even if the registration has been ended in between by a Reset or by a new
-request on the token (see the `decide` example below: message ID 501).  What holds, and is proved,
-is the statement at the boundary between the render task and the message layer:
+the model, which follows the code) for what the render task had handed to the message layer
+*before* the end — the token manager stops the pipe but has no means to take a message back from
+the message manager.  Two situations, both recorded as known findings:
+
+* `C08:queued-notification-sent-after-end` — a CON notification waiting in the per-remote backlog
+  behind an unacknowledged CON is still transmitted, and retransmitted, when that exchange
+  finishes, although the registration has been ended in between by a Reset or by a new request on
+  the token (see the `decide` example on `c08Run` below: message ID 501);
+* `C08:notification-retransmitted-after-end` — a CON notification that is in flight (transmitted,
+  not acknowledged) when the registration ends by a new request of the same endpoint on the same
+  token (deregistration, re-registration, plain GET) keeps being retransmitted, up to
+  `MAX_RETRANSMIT` more copies (`corpus/C08/notification-retransmitted-after-deregistration.json`;
+  `decide` example `c08RetxRun` below).  A Reset of that very notification, a transport error and
+  shutdown do remove the exchange; retransmissions of the registration's *final* notification are
+  not an exception but part of the property.
+
+What holds, and is proved, is the statement at the boundary between the render task and the
+message layer:
 -/
 /-- **C08 (nothing after the end — partial).** Once the task of a registration has ended, a step of
 it produces no output at all — no datagram, no render, no notification, no callback — and changes
@@ -649,5 +661,83 @@ example : (run c08Init (c08Run.take 9)).1.tasks.map (fun t => (t.cancelReq, t.ph
 example : ((run c08Init c08Run).1.tasks.map (fun t => (t.phase, t.cbRuns)),
     (run c08Init c08Run).1.observations, (run c08Init c08Run).1.ml.incoming.length) =
     ([(.done, 1)], [], 0) := by decide
+
+/-- what the examples below show of a run's outputs -/
+def c08Show (os : List Out) : List (String × Nat × Nat × Nat × Nat) :=
+  os.map fun o => match o with
+    | .net (.send t _ w) => ("send", t, w.mid, w.obs.getD 99, w.body)
+    | .net (.deliver sv _ _) => ("deliver", sv, 0, 0, 0)
+    | .net (.stop sv) => ("stop", sv, 0, 0, 0)
+    | .net _ => ("other", 0, 0, 0, 0)
+    | .count n => ("count", n, 0, 0, 0)
+    | .cancelled sv => ("cancelled", sv, 0, 0, 0)
+    | .render sv v => ("render", sv, v, 0, 0)
+    | .notify sv _ obs body il => ("notify", sv, obs.getD 99, body, if il then 1 else 0)
+
+/-- the input of the repaired defect: a registration; change 1, whose render suspends; change 2
+announced by `trigger(None | Message, is_last=True)` while that render is suspended; the render
+returns; one more change afterwards -/
+def c08LastRun (explicit : Option Nat) : List TEv :=
+  [⟨5, .recv 1 false (c08Get 70)⟩, ⟨5, .step 0 (.imm 69 false) true⟩,
+   ⟨100, .update none⟩, ⟨100, .step 0 .susp true⟩,
+   ⟨110, .trigger 0 explicit true⟩,
+   ⟨120, .release 0 69 false⟩, ⟨120, .step 0 (.imm 69 false) true⟩,
+   ⟨130, .update none⟩, ⟨130, .step 0 (.imm 69 false) true⟩]
+
+/-- the overtaken rendering (version 1) goes out as an ordinary notification, Observe 1, not last;
+the pending last-marked trigger is served in the same step: version 2 is rendered and put on the
+pipe as the final response (no Observe, last), the callback runs, the count is 0; the change after
+that produces nothing.  (The final response is a CON queued in the message layer behind the
+unacknowledged message 500.)  Before the fix the outputs ended `notify 0 - 1 last`. -/
+example : c08Show (run c08Init (c08LastRun none)).2 =
+  [("deliver", 0, 0, 0, 0), ("count", 1, 0, 0, 0), ("render", 0, 0, 0, 0), ("send", 5, 70, 0, 0),
+   ("notify", 0, 0, 0, 0), ("render", 0, 1, 0, 0), ("send", 120, 500, 1, 1), ("notify", 0, 1, 1, 0),
+   ("render", 0, 2, 0, 0), ("notify", 0, 99, 2, 1), ("cancelled", 0, 0, 0, 0), ("count", 0, 0, 0, 0)] := by
+  decide
+
+/-- the same with an explicit final message: it is that message (version 2) that ends the
+registration, nothing is rendered for it -/
+example : c08Show (run c08Init (c08LastRun (some 69))).2 =
+  [("deliver", 0, 0, 0, 0), ("count", 1, 0, 0, 0), ("render", 0, 0, 0, 0), ("send", 5, 70, 0, 0),
+   ("notify", 0, 0, 0, 0), ("render", 0, 1, 0, 0), ("send", 120, 500, 1, 1), ("notify", 0, 1, 1, 0),
+   ("notify", 0, 99, 2, 1), ("cancelled", 0, 0, 0, 0), ("count", 0, 0, 0, 0)] := by decide
+
+/-- while the render is suspended the last-marked trigger is pending (first case of
+`C08_latest_state_sent` before the render's result arrives); at the end the hypotheses of its third
+case are met: accepted, ended, flagged `lastSent`, and indeed `seen = sentVer = 2` -/
+example : ∃ t ∈ (run c08Init ((c08LastRun none).take 5)).1.tasks,
+    t.phase = .loopRender ∧ t.runnable = false ∧ t.late = true ∧ t.trig = some none ∧
+    t.seen = 2 ∧ t.renderVer = 1 := by decide
+example : ∃ t ∈ (run c08Init (c08LastRun none)).1.tasks,
+    t.observe = true ∧ t.accepted = true ∧ t.phase = .done ∧ t.runnable = false ∧
+    t.lastSent = true ∧ t.seen = 2 ∧ t.sentVer = 2 ∧ t.cbRuns = 1 := by decide
+
+/-- a change that arrives while the *final* render is suspended (the resource goes on after it said
+"last"): that rendering (version 1) is not the last either, version 2 is -/
+example : c08Show (run c08Init
+    [⟨5, .recv 1 false (c08Get 70)⟩, ⟨5, .step 0 (.imm 69 false) true⟩,
+     ⟨100, .trigger 0 none true⟩, ⟨100, .step 0 .susp true⟩, ⟨110, .update none⟩,
+     ⟨120, .release 0 69 false⟩, ⟨120, .step 0 (.imm 69 false) true⟩]).2 =
+  [("deliver", 0, 0, 0, 0), ("count", 1, 0, 0, 0), ("render", 0, 0, 0, 0), ("send", 5, 70, 0, 0),
+   ("notify", 0, 0, 0, 0), ("render", 0, 1, 0, 0), ("send", 120, 500, 1, 1), ("notify", 0, 1, 1, 0),
+   ("render", 0, 2, 0, 0), ("notify", 0, 99, 2, 1), ("cancelled", 0, 0, 0, 0), ("count", 0, 0, 0, 0)] := by
+  decide
+
+/-- the second exception to "nothing on the wire after the end" (known finding
+`C08:notification-retransmitted-after-end`): notification 500 is in flight, the observer
+deregisters on the token (GET Observe 1, answered at once), the timer of message 500 fires -/
+def c08RetxRun : List TEv :=
+  [⟨5, .recv 1 false (c08Get 70)⟩, ⟨5, .step 0 (.imm 69 false) true⟩,
+   ⟨100, .update none⟩, ⟨100, .step 0 (.imm 69 false) true⟩,
+   ⟨110, .recv 1 false { c08Get 71 with obs := some 1 }⟩, ⟨110, .step 0 .susp true⟩,
+   ⟨110, .step 1 (.imm 69 false) true⟩,
+   ⟨120, .fireRetransmit 1 500⟩]
+
+example : c08Show (run c08Init c08RetxRun).2 =
+  [("deliver", 0, 0, 0, 0), ("count", 1, 0, 0, 0), ("render", 0, 0, 0, 0), ("send", 5, 70, 0, 0),
+   ("notify", 0, 0, 0, 0), ("render", 0, 1, 0, 0), ("send", 100, 500, 1, 1), ("notify", 0, 1, 1, 0),
+   ("stop", 0, 0, 0, 0), ("deliver", 1, 0, 0, 0), ("cancelled", 0, 0, 0, 0), ("count", 0, 0, 0, 0),
+   ("render", 1, 1, 0, 0), ("send", 110, 71, 99, 1), ("notify", 1, 99, 1, 1),
+   ("send", 120, 500, 1, 1)] := by decide
 
 end Aiocoap.Observe.Server
